@@ -173,6 +173,8 @@ def apply(D, op, a):
         return D.exp(a[0])
     if op == "LOG":
         return D.log(a[0])
+    if op in ("SINH", "COSH", "TANH", "ASINH", "ACOSH", "ATANH", "ERF"):
+        return getattr(D, op.lower())(a[0])
     raise Unsupported(op)
 
 
@@ -185,6 +187,9 @@ class FloatDomain:
 
     def const(self, x):
         return float(x)
+
+    def exact(self, fr):
+        return float(fr)
 
     def truth(self, x):
         return x != 0
@@ -247,6 +252,27 @@ class FloatDomain:
     def log(self, a):
         return math.log(a) if a > 0 else float("nan")
 
+    def sinh(self, a):
+        return math.sinh(a)
+
+    def cosh(self, a):
+        return math.cosh(a)
+
+    def tanh(self, a):
+        return math.tanh(a)
+
+    def asinh(self, a):
+        return math.asinh(a)
+
+    def acosh(self, a):
+        return math.acosh(a) if a >= 1 else float("nan")
+
+    def atanh(self, a):
+        return math.atanh(a) if -1 < a < 1 else float("nan")
+
+    def erf(self, a):
+        return math.erf(a)
+
     def fabs(self, a):
         return abs(a)
 
@@ -296,6 +322,9 @@ class FloatDomain:
 class MpDomain(FloatDomain):
     def const(self, x):
         return mp.mpf(x)
+
+    def exact(self, fr):
+        return mp.mpf(fr.numerator) / fr.denominator
 
     def div(self, a, b):
         if b == 0:
@@ -390,6 +419,9 @@ class FracDomain(MpDomain):
 
     def const(self, x):
         return Fraction(x)
+
+    def exact(self, fr):
+        return Fraction(fr)
 
     def sqrt(self, a):
         if a < 0:
@@ -931,6 +963,9 @@ class ValDomain:
             return Val(snap_constant(x))
         return Val(Fraction(x))
 
+    def exact(self, fr):
+        return Val(Fraction(fr))
+
     def truth(self, x: Val):
         if x.is_const():
             return x.c != 0
@@ -1142,11 +1177,17 @@ class IteDomain:
     """values: ('r', term) reals or ('b', Bool).  All ops eager; x/y is z3 real division."""
     lazy_ite = False
 
+    snap = False
+
     def __init__(self):
         self.divs = []
         self.sqrts = []
         self.axioms = []
         self.fresh = 0
+        self._sqrt_memo = {}
+
+    def exact(self, fr):
+        return ("r", Q(Fraction(fr)))
 
     @staticmethod
     def r(x):
@@ -1161,7 +1202,9 @@ class IteDomain:
         return x[1] != 0
 
     def const(self, x):
-        return ("r", Q(Fraction(x)))
+        if x != x or x in (float("inf"), float("-inf")):
+            raise Undefined(f"non-finite constant {x}")
+        return ("r", Q(snap_constant(x) if self.snap else Fraction(x)))
 
     def ite0(self, c, v):
         return ("r", z3.If(self.b(c), self.r(v), Q(0)))
@@ -1183,17 +1226,21 @@ class IteDomain:
         return ("r", self.r(a) / self.r(b))
 
     def sqrt(self, a):
+        t = self.r(a)
+        k = t.get_id()
+        if k in self._sqrt_memo and self._sqrt_memo[k][0].eq(t):
+            return ("r", self._sqrt_memo[k][1])
         self.fresh += 1
         y = z3.Real(f"sqrt!{self.fresh}")
-        t = self.r(a)
         self.axioms.append(z3.And(y >= 0, z3.Implies(t >= 0, y * y == t)))
         self.sqrts.append(t)
+        self._sqrt_memo[k] = (t, y)
         return ("r", y)
 
     def pow(self, a, b):
         e = z3.simplify(self.r(b))
         if not z3.is_rational_value(e):
-            raise Unsupported("pow symbolic exponent")
+            return self._uf("pow", a, b)
         e = Fraction(e.numerator_as_long(), e.denominator_as_long())
         if e.denominator == 1 and e >= 0:
             t = Q(1)
@@ -1208,12 +1255,99 @@ class IteDomain:
                 d = d * self.r(a)
             self.divs.append(d)
             return ("r", Q(1) / d)
-        raise Unsupported(f"pow {e}")
+        if e.denominator == 2:
+            y = self.sqrt(a)
+            n = int(e.numerator)
+            t = Q(1)
+            for _ in range(abs(n)):
+                t = t * self.r(y)
+            if n < 0:
+                self.divs.append(t)
+                return ("r", Q(1) / t)
+            return ("r", t)
+        return self._uf(f"pow_{e.numerator}_{e.denominator}", a)
 
-    def _no(self, *a):
-        raise Unsupported("transcendental op in ite mode")
+    # transcendental functions are uninterpreted (congruence only): two sides that apply the same function to
+    # provably equal arguments agree, anything else is left open
+    def _uf(self, name, *a):
+        f = z3.Function(f"uf_{name}", *([z3.RealSort()] * (len(a) + 1)))
+        return ("r", f(*[self.r(x) for x in a]))
 
-    sin = cos = tan = asin = acos = atan = atan2 = exp = log = floor = ceil = fmod = remainder = _no
+    def truth(self, x):
+        raise Unsupported("truth() in ite mode")
+
+    def sin(self, a):
+        return self._uf("sin", a)
+
+    def cos(self, a):
+        return self._uf("cos", a)
+
+    def tan(self, a):
+        return self._uf("tan", a)
+
+    def asin(self, a):
+        return self._uf("asin", a)
+
+    def acos(self, a):
+        return self._uf("acos", a)
+
+    def atan(self, a):
+        return self._uf("atan", a)
+
+    def atan2(self, a, b):
+        return self._uf("atan2", a, b)
+
+    def exp(self, a):
+        return self._uf("exp", a)
+
+    def log(self, a):
+        return self._uf("log", a)
+
+    def sinh(self, a):
+        return self._uf("sinh", a)
+
+    def cosh(self, a):
+        return self._uf("cosh", a)
+
+    def tanh(self, a):
+        return self._uf("tanh", a)
+
+    def asinh(self, a):
+        return self._uf("asinh", a)
+
+    def acosh(self, a):
+        return self._uf("acosh", a)
+
+    def atanh(self, a):
+        return self._uf("atanh", a)
+
+    def erf(self, a):
+        return self._uf("erf", a)
+
+    def floor(self, a):
+        return ("r", z3.ToReal(z3.ToInt(self.r(a))))
+
+    def ceil(self, a):
+        return ("r", -z3.ToReal(z3.ToInt(-self.r(a))))
+
+    def fmod(self, a, b):
+        """C fmod: a - b*trunc(a/b)"""
+        x, y = self.r(a), self.r(b)
+        self.divs.append(y)
+        q = x / y
+        tr = z3.If(q >= 0, z3.ToReal(z3.ToInt(q)), -z3.ToReal(z3.ToInt(-q)))
+        return ("r", x - y * tr)
+
+    def remainder(self, a, b):
+        """C remainder: a - b*n, n = a/b rounded to nearest, ties to even"""
+        x, y = self.r(a), self.r(b)
+        self.divs.append(y)
+        q = x / y
+        fl = z3.ToInt(q)
+        fr = q - z3.ToReal(fl)
+        half = Q(Fraction(1, 2))
+        n = z3.If(fr < half, fl, z3.If(fr > half, fl + 1, z3.If(fl % 2 == 0, fl, fl + 1)))
+        return ("r", x - y * z3.ToReal(n))
 
     def fabs(self, a):
         t = self.r(a)
